@@ -24,11 +24,76 @@ PROFILES = {
     "c06-all": Profile("c06-all", {
         "new_doc": 3, "new_sec": 12, "new_prop": 12, "create_section": 5, "create_property": 5,
         "append": 8, "insert": 6, "extend": 10, "remove": 4, "set_parent": 8, "setitem": 6,
-        "reorder": 2, "rename": 6, "clone": 3, "merge": 8, "set_link": 5, "set_include": 3, "save": 2, "merge_again": 5, "merge_self": 2, "finalize": 3, "clean": 1, "new_id": 4,
+        "reorder": 2, "rename": 6, "clone": 3, "merge": 8, "set_link": 5, "set_include": 3, "save": 2, "merge_again": 5, "merge_self": 2, "finalize": 3, "linked_copy": 5, "clean": 3, "new_id": 4,
         "set_values": 8, "set_dtype": 6, "v_append": 5, "v_extend": 5, "v_insert": 4,
         "v_setitem": 4, "v_remove": 2, "set_card": 8, "set_attr": 3, "get_values": 1,
     }, fault_share=0.6),
 }
 MONITORS = [mon_atomic]
 
-explore, execute = sessioncheck.make(PROFILES, MONITORS, PROPERTY)
+import re as _re
+_UUID = _re.compile(r"[0-9a-f]{8}-[0-9a-f]{4}-[0-9a-f]{4}-[0-9a-f]{4}-[0-9a-f]{12}"
+                   r"|[^\"' ]*odml-verif-[0-9]+-[0-9]+")        # ids, and the per-run sandbox path
+
+
+def differential(res, replay):
+    """A refused operation changes nothing - also nothing that only shows later: replay the history
+    without the operations that raised; every later state must be the same (ids aside, refused
+    constructors draw from the id stream)."""
+    from simkit.session import signature
+    info = res.extra.get("steps_info") or []
+    leave_out = set(st["step"] for st in info if st["outcome"] == "exc")
+    if not leave_out or len(leave_out) == len(info):
+        return
+    # an op that quotes an id of this run (a name chosen to equal an existing id) means something
+    # else in a replay whose ids come out differently: such histories are not compared
+    import json as _json
+    _snaps = [s_ for s_ in (res.extra.get("snapshots") or []) if s_ is not None]
+    _text = _json.dumps(res.case["ops"], default=repr)
+    if any(m != "5b6a1b40-2bd4-4a12-8f3c-0a1b2c3d4e5f" and "odml-verif" not in m
+           for m in _UUID.findall(_text)):
+        return          # (the generator's one fixed id is the same text in every run)
+    res.stats["differential_replays"] = res.stats.get("differential_replays", 0) + 1
+    other = replay(res.case, leave_out)
+    all_a = res.extra.get("snapshots") or []
+    all_b = other.extra.get("snapshots") or []
+    if len(all_a) != len(all_b):
+        return
+
+    import json
+
+    def normal(snap):
+        """Records as text with every id of the run replaced by the position of its holder: ids
+        (and names, values, links that quote them) differ between the runs only by the stream."""
+        ids = sorted(((rec.get("id"), i) for i, rec in enumerate(snap["objs"]) if rec.get("id")),
+                     key=lambda t: -len(t[0]))
+        out = []
+        for rec in snap["objs"]:
+            text = json.dumps(rec, sort_keys=True, default=repr)
+            # ids that are nobody's any more (a name that still quotes the id its object had
+            # before new_id) differ by the stream position as well
+            out.append(_UUID.sub("<uuid>", text))
+        return out
+    for sa, sb in zip(all_a, all_b):
+        if sa is not None and sb is not None and len(sa["objs"]) != len(sb["objs"]):
+            return          # the runs registered different objects: nothing to compare
+    last = [(sa, sb) for sa, sb in zip(all_a, all_b) if sa is not None and sb is not None]
+    if not last:
+        return
+    na, nb = normal(last[-1][0]), normal(last[-1][1])
+    for i, (ta, tb) in enumerate(zip(na, nb)):
+        if ta != tb:
+            ra, rb = json.loads(ta), json.loads(tb)
+            keys = [k_ for k_ in sorted(set(ra) | set(rb)) if ra.get(k_) != rb.get(k_)]
+            res.violation = {
+                "monitor": "atomic.no-delayed-effect", "step": len(res.case["ops"]),
+                "op": {"op": "differential"}, "labels": [], "outcome": ["ret"],
+                "message": "obj#%d ends up different in %r when the refused operations (steps %r) are "
+                           "left out of the history: %r vs %r" %
+                           (i, keys, sorted(leave_out)[:6], ra.get(keys[0]) if keys else None,
+                            rb.get(keys[0]) if keys else None),
+                "signature": signature("atomic.no-delayed-effect", "differential", [])}
+            return
+
+
+explore, execute = sessioncheck.make(PROFILES, MONITORS, PROPERTY, differential=differential)
